@@ -18,7 +18,9 @@ Oracle : observed at the fake hardware.
               which the repo's unit test documents for only_write_modified_values)
                  lost-write:<kind>      kind = nonnumeric->float (float commanded, register still holds a str/None)
                                         | after-device-reset | after-unnoticed-flush-failure (volatile device, the
-                                        decorator swallowed the failure of its own buffer flush) | <type>-><type>
+                                        decorator swallowed the failure of its own buffer flush of an obsolete entry)
+                                        | after-swallowed-flush-failure:valid-buffer-entry (same, the flushed entry
+                                        was a valid one and the fault hit the middle of the call) | <type>-><type>
               registers whose content was destroyed by a stale write already reported under (i) are skipped and
               counted (class excluded_known:stale-buffered-write) so that one root cause yields one signature.
          (iii) after every single write() / partial write_batch (a UOD command writing through context.hwl) that ends
@@ -122,6 +124,12 @@ def judge(case, steps):
         if failed and st_.post == "OK" and st_.pre == "OK":
             labels.add("swallowed-flush-failure")
             unnoticed_reset = unnoticed_reset or volatile
+        elif failed and st_.post == "OK" and st_.pre == "Issue" and any(e[0] == "w" for e in st_.ev):
+            # the call's own write succeeded (Issue -> OK) and a physical write of the buffer flush behind it failed: the
+            # decorator swallows that failure and stays OK although the flushed entry was a valid one ("better luck next time")
+            labels.add("swallowed-flush-failure:valid-buffer-entry")
+            if volatile:
+                unnoticed_reset = "valid-entry"
         # ---- (i) every physical write carries the most recently commanded value ---------------------
         first_io = min([j for j, e in enumerate(st_.ev) if e[0] in ("w", "wfail", "w0")], default=None)
         for j, e in enumerate(st_.ev):
@@ -211,7 +219,8 @@ def judge(case, steps):
             if isinstance(commanded[r], float) and not H._is_num(st_.mem[r]):
                 kind = "nonnumeric->float"
             elif volatile and st_.mem[r] == H.RESET_VALUE:
-                kind = "after-unnoticed-flush-failure" if unnoticed_reset else "after-device-reset"
+                kind = ("after-swallowed-flush-failure:valid-buffer-entry" if unnoticed_reset == "valid-entry"
+                        else "after-unnoticed-flush-failure" if unnoticed_reset else "after-device-reset")
             else:
                 kind = "%s->%s" % (_tname(st_.mem[r]), _tname(commanded[r]))
             V("lost-write:" + kind,
